@@ -16,6 +16,9 @@ import (
 
 	"verifh/engine"
 
+	"github.com/pinealctx/neptune/ulog"
+	"go.uber.org/zap/zapcore"
+
 	"github.com/pinealctx/neptune/syncx/pipe"
 	"github.com/pinealctx/neptune/syncx/pipe/async"
 	"github.com/pinealctx/neptune/syncx/pipe/line"
@@ -38,7 +41,13 @@ var Prop = &engine.Prop{
 		"a caller whose context is already done when its result is also available may receive either (own result or own context error)",
 	},
 	ShardsQuick: 8, ShardsThorough: 48,
-	Setup: func(c *engine.Ctx) { Q = engine.NewQuiescer() },
+	Setup: func(c *engine.Ctx) {
+		// the executors log every shutdown at debug level on stdout: silence the default logger
+		lg := ulog.NewSimpleLogger("error")
+		lg.SetLevel(zapcore.FatalLevel)
+		ulog.SetDefaultLogger(lg)
+		Q = engine.NewQuiescer()
+	},
 	Kinds: []engine.Kind{
 		{Name: "gate", Quick: 8000, Thorough: 900000, Fn: gateCase},
 		{Name: "stress", Quick: 24, Thorough: 1800, Repeat: 20, Fn: stressCase},
